@@ -54,6 +54,10 @@ CHECKS = {
    "bounded-exhaustive parameter x adversarial-value enumeration judged by an independent XML parser (python expat)",
    "Every text-valued parameter of every operation (tokens, XPath select, instance names, log messages, text/set/JSON payloads, URLs), pairs of parameters, verbatim fragments and the agent's own policy payloads (names x expressions, update and delete) are serialised by the real request path for every value of an adversarial alphabet; expat must see exactly one well-formed document followed by the only occurrence of the delimiter and recover each value unchanged.",
    "Characters XML 1.0 cannot carry and fragments that contain the delimiter themselves are outside the alphabet.", "DESIGN.md §2 E3 C10"),
+ "C13": ("E3", "exploration",
+   "bounded-exhaustive rewrite neighbourhoods (all single and pairwise information-preserving rewrites at every position) with a differential oracle",
+   "21 seed messages (hellos, every reply type, rpc-errors with all leaves, get-config data for both agent readers; accepted and rejected ones) x every applicable rewrite (namespace prefix vs default, inter-element whitespace, whitespace around token-valued text, comments, attribute order, quote style, XML declaration, empty-element form) at every position, singly and in pairs; each rewritten message goes through the real session (and the agent's real fetch path) and must give the same acceptance and the same Debug value as its seed.",
+   "The value of <get> is the raw <data> content by design, so only acceptance is compared there.", "DESIGN.md §2 E3 C13"),
 }
 
 NOT_YET = "check not built yet (construction in progress; see DESIGN.md)"
